@@ -147,10 +147,8 @@ def run_property(modname, tier, seed, replay=None):
     # ---- 1/2/3: facts, proofs, extraction ----
     facts_info = None
     try:
-        if getattr(mod, "FACTS", None) is not None:
-            from . import srcfacts
-            facts_info = srcfacts.regenerate()
-        binfo = build.ensure_built()
+        binfo = build.ensure_built(pid=pid)
+        facts_info = binfo.pop("facts", None)
         thms, assum = build.check_property_file(pid)
     except build.BuildError as e:
         proof_break = dict(stage=e.stage, target=e.target, log=e.log)
